@@ -106,7 +106,19 @@ def setup(tier, seed):
     run_sys(case, seed)
 
 
+def sawf_cases(tier):
+    for st, orbs in (("P4mmm_2f", ("p", "d")), ("honeycomb", ("p", "sp2")), ("diamond", ("p", "sp3"))):
+        for orb in orbs:
+            for rb in (False, True):
+                yield {"kind": "sawf", "struct": st, "orb": orb, "rotate_basis": rb}
+
+
 def cases(tier, seed):
+    yield from _cases(tier, seed)
+    yield from sawf_cases(tier)
+
+
+def _cases(tier, seed):
     quick = tier == "quick"
     table = QUICK_PROJS if quick else PROJS
     out = []
@@ -590,7 +602,49 @@ def run_lin(case, seed):
     return {"ok": True, "nontrivial": nontrivial, "obs": {"impulses": len(done), "nsym": len(ops)}}
 
 
+SAWF_STRUCTS = {
+    # name: (lattice, positions, typat, indices of the orbit that carries the projection)
+    "P4mmm_2f": (np.diag([2.0, 2.0, 3.0]), [[0.5, 0, 0], [0, 0.5, 0], [0, 0, 0]], [1, 1, 2], [0, 1]),
+    "honeycomb": (np.array([[1.0, 0, 0], [-0.5, np.sqrt(3) / 2, 0], [0, 0, 1.7]]), [[1 / 3, 2 / 3, 0], [2 / 3, 1 / 3, 0]], [1, 1], [0, 1]),
+    "diamond": (np.array([[0, 0.5, 0.5], [0.5, 0, 0.5], [0.5, 0.5, 0]]) * 2.0, [[0, 0, 0], [0.25, 0.25, 0.25]], [1, 1], [0, 1]),
+}
+
+
+def run_sawf(case, seed):
+    """System_R.symmetrize2 with a symmetrizer built from Projection objects (local axes rotated with the sites or not):
+    the path used by from_wannierdata / SystemSOC, not reachable through System_R.symmetrize"""
+    from irrep.spacegroup import SpaceGroup
+    from wannierberri.symmetry.projections import Projection
+    from wannierberri.symmetry.sawf import SymmetrizerSAWF
+    from wbmc import zoo
+    lat, pos, typat, orbit = SAWF_STRUCTS[case["struct"]]
+    pos = np.array(pos, dtype=float)
+    sg = SpaceGroup.from_cell(real_lattice=lat, positions=pos, typat=typat, spinor=False, include_TR=True)
+    proj = Projection(position_num=pos[orbit], orbital=case["orb"], spacegroup=sg, rotate_basis=bool(case["rotate_basis"]))
+    symmetrizer = SymmetrizerSAWF.from_spacegroup_and_projections(spacegroup=sg, projections=[proj])
+    nw = symmetrizer.num_wann
+    s = zoo.make_system(nw, lat, "shell1", np.array(proj.wannier_centers_red, dtype=float), seed=seed,
+                        matrices=("Ham", "AA"), tag="c20sawf" + case["struct"] + case["orb"])
+    s.symmetrize2(symmetrizer, silent=True)
+    ops = group_ops(symmetrizer)
+    dev = kspace_covariance(s, ops, ["energy", "berry_curvature"], nk=2)
+    tag = f"sawf:{case['struct']}:{case['orb']}:rotate_basis={int(bool(case['rotate_basis']))}"
+    for q, (d, sc) in dev.items():
+        if not d <= 1e-7:
+            return {"ok": False, "key": f"kspace:{q}:{tag}", "nontrivial": tag,
+                    "detail": f"symmetrize2 with a Projection-based symmetrizer ({case}), centres on the sites, nsym={len(ops)}: "
+                              f"{q} at g k deviates from the transformed value at k by {d:.3g} (relative)"}
+    from wbmc import symwann_oracle as so
+    for key in ("Ham", "AA"):
+        h = so.hermiticity_residual(s.get_R_mat(key), np.array(s.rvec.iRvec))
+        if not h <= 1e-10:
+            return {"ok": False, "key": f"hermiticity:{key}:{tag}", "nontrivial": tag, "detail": f"{case}: {key} not Hermitian ({h:.3g})"}
+    return {"ok": True, "nontrivial": tag, "obs": {"nsym": len(ops), "num_wann": int(nw)}}
+
+
 def run_case(case, seed):
+    if case.get("kind") == "sawf":
+        return run_sawf(case, seed)
     if case["kind"] == "sys":
         return run_sys(case, seed)
     return run_lin(case, seed)
